@@ -101,11 +101,22 @@ def gen_graph(rng, k, kind):
             j = rng.below(n)
             edges.add((x, cyc[j]))
             edges.add((x, cyc[(j + 1) % n]))
+    elif kind == "dense-cycle" and k >= 6:
+        # a layered acyclic set in which every library depends on all later ones, plus one 2-cycle they all lead to
+        a, b = order[0], order[1]
+        rest = order[2:]
+        edges |= {(a, b), (b, a)}
+        for i, x in enumerate(rest):
+            for y in rest[i + 1:]:
+                edges.add((x, y))
+        edges.add((rest[-1], a))
     elif kind == "sccs" and k >= 4:
         a, b, c, d = order[:4]
         edges |= {(a, b), (b, a), (c, d), (d, c), (c, a)}
         for x in order[4:]:
             edges.add((x, rng.choice([a, b, c, d])))
+    elif kind == "hidden-chain":
+        return gen_graph(rng, k, rng.choice(["chain", "dag", "forest"]))
     else:
         return gen_graph(rng, k, "dag")
     return edges
@@ -136,14 +147,14 @@ def _topo(k, edges):
     return out
 
 
-def real_headers(rng, names, edges, funcs_only):
+def real_headers(rng, names, edges, funcs_only, force_hidden=False):
     funcs_only, enum_only = funcs_only if isinstance(funcs_only, tuple) else (funcs_only, set())
     """One header per library.  Layout: an independent base class first, then the includes of every
     dependency, then the classes/typedefs that realise the edges -- this supports arbitrary graphs, cycles included.
     In acyclic graphs a class may also derive from (or name) a *derived* class of the dependency, so that
     inheritance chains span three and more libraries."""
     k = len(names)
-    how = {e: rng.choice(["derive", "derive", "typedef", "both"]) for e in sorted(edges)}
+    how = {e: ("derive" if force_hidden else rng.choice(["derive", "derive", "typedef", "both"])) for e in sorted(edges)}
     order = _topo(k, edges)
     acyclic = order is not None
     classes = {u: ["%s_K0" % names[u].capitalize()] for u in range(k)}
@@ -153,9 +164,9 @@ def real_headers(rng, names, edges, funcs_only):
         out = ["#ifndef %s_H" % U.upper(), "#define %s_H" % U.upper()]
         deps = sorted(v for (a, v) in edges if a == u)
         if u in enum_only:
-            out += ["__published:", "enum %s_Enum { %s_a = 1, %s_b = 2 };" % (U, U, U)]
+            out += ["__begin_publish", "enum %s_Enum { %s_a = 1, %s_b = 2 };" % (U, U, U), "__end_publish"]
         elif u in funcs_only:
-            out += ["__published:", "int %s_only_function(int a);" % names[u]]
+            out += ["__begin_publish", "int %s_only_function(int a);" % names[u], "__end_publish"]
         else:
             out += ["%s %s_K0 {" % (rng.choice(["class", "class", "struct"]), U), "__published:", "  %s_K0();" % U, "  int get_%s() const;" % names[u]]
             if rng.chance(1, 2):
@@ -167,11 +178,16 @@ def real_headers(rng, names, edges, funcs_only):
                 h = how[(u, v)]
                 base = rng.choice(classes[v]) if acyclic else classes[v][0]
                 if h in ("derive", "both"):
+                    if force_hidden or rng.chance(1, 2):
+                        # the inheritance goes through an intermediate class that publishes nothing
+                        out += ["class %s_H%d : public %s {" % (U, n, base), "public:", "  int hidden_%d();" % n, "};"]
+                        base = "%s_H%d" % (U, n)
                     out += ["%s %s_D%d : public %s {" % (rng.choice(["class", "struct", "struct"]), U, n, base), "__published:", "  %s_D%d();" % (U, n), "  int d%d() const;" % n, "};"]
                     classes[u].append("%s_D%d" % (U, n))
                 if h in ("typedef", "both"):
                     out.append("typedef %s %s_T%d;" % (rng.choice(classes[v]) if acyclic else classes[v][0], U, n))
-            out += ["__published:", "int %s_function(int a);" % names[u]]
+            # a publish block that ends: a file-scope "__published:" would stay in effect for whatever includes this header
+            out += ["__begin_publish", "int %s_function(int a);" % names[u], "__end_publish"]
         out.append("#endif")
         files["%s/%s.h" % (names[u], names[u])] = "\n".join(out) + "\n"
     return files
@@ -232,7 +248,7 @@ def synth_dbs(rng, names, edges, funcs_only):
 
 # ---------------------------------------------------------------- plans
 
-KINDS = ["chain", "dag", "dag", "diamond", "forest", "cycle2", "cycleN", "cycle-out", "sccs"]
+KINDS = ["chain", "dag", "dag", "diamond", "forest", "cycle2", "cycleN", "cycle-out", "sccs", "hidden-chain"]
 
 
 def generate(ctx):
@@ -242,21 +258,28 @@ def generate(ctx):
         rng = run_rng(ctx.seed, NAME, i)
         variant = "real" if i % 3 else "synth"
         kind = rng.choice(KINDS)
-        lo = {"chain": 2, "dag": 1, "diamond": 4, "forest": 2, "cycle2": 2, "cycleN": 4, "cycle-out": 4, "sccs": 5}[kind]
+        lo = {"chain": 2, "dag": 1, "diamond": 4, "forest": 2, "cycle2": 2, "cycleN": 4, "cycle-out": 4, "sccs": 5, "hidden-chain": 2}[kind]
         k = rng.range(lo, 6) if variant == "real" else rng.range(lo, 9)
-        perms = list(itertools.permutations(range(k)))
-        if len(perms) > 24:
-            perms = [rng.shuffle(range(k)) for _ in range(24)]
-        elif ctx.tier == "quick" and len(perms) > 8:
-            perms = rng.sample(perms, 8)
+        if variant == "synth" and i % 40 == 8:
+            kind, k = "dense-cycle", rng.range(40, 46)
+        if k <= 4:
+            perms = list(itertools.permutations(range(k)))
+            if ctx.tier == "quick" and len(perms) > 8:
+                perms = rng.sample(perms, 8)
+        elif k > 12:
+            perms = [rng.shuffle(range(k)) for _ in range(2)]
+        else:
+            perms = [rng.shuffle(range(k)) for _ in range(24 if ctx.tier == "thorough" else 8)]
         fault = None
         if rng.chance(1, 4):
             fault = {"lib": rng.below(k), "kind": rng.choice(["missing", "torn", "torn", "torn-tail", "torn-tail", "version", "version", "isdir", "empty"]), "back": rng.range(2, 60), "frac": rng.range(1, 99), "stale": rng.chance(1, 2),
                      "text": rng.choice(["3 4", "4 0", "2 3", "1 0", "2 9", "3 99"])}
         elif rng.chance(1, 8):
             fault = {"lib": None, "kind": "none", "stale": True}
+        if kind == "dense-cycle":
+            fault = None
         plans.append({"id": i, "variant": variant, "k": k, "graph": kind, "gseed": rng.next(), "perms": [list(p) for p in perms], "fault": fault,
-                      "funcs_only": [x for x in range(k) if rng.chance(1, 10)], "enum_only": [x for x in range(k) if rng.chance(1, 10)], "extra": rng.choice([[], [], ["-python"], ["-track-interpreter"], ["-import", "other.mod"], ["-init", "extra_init"]])})
+                      "funcs_only": [x for x in range(k) if rng.chance(1, 10) and kind != "dense-cycle"], "enum_only": [x for x in range(k) if rng.chance(1, 10) and kind != "dense-cycle"], "mode": rng.choice(["native"] * 5 + ["python", "c", "default"]), "extra": rng.choice([[], [], ["-python"], ["-track-interpreter"], ["-import", "other.mod"], ["-init", "extra_init"]])})
     return plans
 
 
@@ -315,9 +338,18 @@ def model_graph(dbs):
         targets = [d["base"] for d in t["derivations"]]
         if t["flags"] & F.TF_TYPEDEF:
             targets.append(t["wrapped_type"])
-        for b in targets:
+        seen = set()
+        while targets:
+            b = targets.pop()
+            if b in seen:
+                continue
+            seen.add(b)
             bt = mc.recs["types"].get(b)
-            if bt is None or not (bt["flags"] & F.TF_GLOBAL):
+            if bt is None:
+                continue
+            if not (bt["flags"] & F.TF_GLOBAL):
+                # an intermediate class that is not published itself: the classes *it* derives from are still base classes of t
+                targets.extend(d["base"] for d in bt["derivations"])
                 continue
             bl = mc.owner[("types", b)][0]
             if bl and bl.decode() != L:
@@ -347,8 +379,15 @@ def execute(plan):
     violations, harness_faults = [], []
     dbs = []
     os.makedirs(os.path.join(root, "db"))
+    if plan["graph"] == "hidden-chain":
+        # every edge goes through an unpublished intermediate class, and the libraries are named so that dependents sort first
+        order = _topo(k, edges) or list(range(k))
+        srt = sorted(names)
+        names = list(names)
+        for rank, u in enumerate(reversed(order)):
+            names[u] = srt[rank]
     if plan["variant"] == "real":
-        files = real_headers(rng, names, edges, funcs_only)
+        files = real_headers(rng, names, edges, funcs_only, force_hidden=(plan["graph"] == "hidden-chain"))
         for rel, text in files.items():
             p = os.path.join(root, "src", rel)
             os.makedirs(os.path.dirname(p), exist_ok=True)
@@ -420,7 +459,9 @@ def execute(plan):
             if fault and fault.get("stale"):
                 with open(outp, "w") as f:
                     f.write("// stale module file of an earlier run\nDtool_libstale_RegisterTypes();\n")
-            argv = [build.tool("rel", "interrogate_module"), "-oc", out_rel, "-module", MODULE, "-library", MODULE, "-python-native"] + plan["extra"] + \
+            mode = plan.get("mode", "native")
+            flags = {"native": ["-python-native"] + plan["extra"], "python": ["-python"], "c": ["-c"], "default": []}[mode]
+            argv = [build.tool("rel", "interrogate_module"), "-oc", out_rel, "-module", MODULE, "-library", MODULE] + flags + \
                    ["db/%s.in" % names[u] for u in perm]
             r = runner.run_tool(argv, cwd=root, env=env, wall=20)
             stats["module_runs"] += 1
@@ -447,6 +488,9 @@ def execute(plan):
                 violations.append({"property": "C16", "class": "no-fault-failure", "key": {"kind": "no-fault-failure"},
                                    "msg": "no load fault, yet status %s / output %s: %s; stderr %s" % (r.status, "missing" if text is None else "present", where, r.stderr.decode()[-200:])})
                 continue
+            if mode != "native":
+                verdicts.add("other-mode")
+                continue        # the initialisation order exists only in the -python-native table
             regs, blds, defs, exts = parse_output(text.decode("latin-1"))
             seqs = [regs[:len(regs) // 2], regs[len(regs) // 2:], blds[:len(blds) // 2], blds[len(blds) // 2:]] + defs + [exts]
             seq = seqs[0]
